@@ -102,3 +102,56 @@ pub fn symbols() -> Vec<String> {
         .map(|z| optrs::verif::AtomicNumber::from_integer(z).unwrap().to_atomic_symbol().to_string())
         .collect()
 }
+
+/// Values on which the current source differs from the verified baseline (literals on the changed lines; see
+/// `source_hints` in tools/checklib.py), handed over in OPTRS_HINTS as `i:16384;f:1e-08;s:opt.xyz`. Generators add inputs
+/// built around them. Empty on the unchanged tree.
+pub struct Hints { pub ints: Vec<usize>, pub floats: Vec<f64>, pub strs: Vec<String> }
+
+pub fn hints() -> Hints {
+    let mut h = Hints { ints: vec![], floats: vec![], strs: vec![] };
+    if let Ok(v) = std::env::var("OPTRS_HINTS") {
+        for part in v.split(';') {
+            if let Some(x) = part.strip_prefix("i:") { if let Ok(n) = x.parse::<usize>() { h.ints.push(n); } }
+            else if let Some(x) = part.strip_prefix("f:") { if let Ok(f) = x.parse::<f64>() { if f.is_finite() && f != 0.0 { h.floats.push(f); } } }
+            else if let Some(x) = part.strip_prefix("s:") { if !x.is_empty() { h.strs.push(x.to_string()); } }
+        }
+    }
+    h
+}
+
+impl Hints {
+    /// atom counts suggested by the integer hints: the value itself, its neighbours and small multiples (a size the code branches
+    /// on), and the atom counts at which the number of atom pairs n(n-1)/2 crosses the value or a small multiple of it (a term count
+    /// it branches on) — each with the next three counts, so that every residue modulo 4 occurs. Bounded by `max`.
+    pub fn atom_counts(&self, min: usize, max: usize) -> Vec<usize> {
+        let mut v: Vec<usize> = vec![];
+        for &n in &self.ints {
+            for c in [n.saturating_sub(1), n, n + 1, 2 * n, 2 * n + 1, 3 * n] { v.push(c); }
+            for mult in [1usize, 2, 4] {
+                let t = n.saturating_mul(mult) as f64;
+                let n0 = ((1.0 + (1.0 + 8.0 * t).sqrt()) / 2.0).ceil() as usize;
+                for d in 0..4 { v.push(n0 + d); }
+            }
+        }
+        v.retain(|c| *c >= min && *c <= max);
+        v.sort(); v.dedup();
+        // keep the run time bounded: at most eight, spread over the list
+        if v.len() > 8 { let step = v.len() as f64 / 8.0; v = (0..8).map(|k| v[(k as f64 * step) as usize]).collect(); }
+        v
+    }
+    /// lengths / magnitudes suggested by the float hints: the value, its square root and its reciprocal
+    pub fn magnitudes(&self) -> Vec<f64> {
+        let mut v = vec![];
+        for &f in &self.floats { let a = f.abs(); for c in [a, a.sqrt(), 1.0 / a] { if c.is_finite() && c > 0.0 { v.push(c); } } }
+        v
+    }
+}
+
+/// a lattice of `n` noble-gas atoms (spacing `a`) — the filler of size-directed cases
+pub fn lattice_points(n: usize, a: f64) -> Vec<[f64; 3]> {
+    let side = (n as f64).cbrt().ceil() as usize;
+    let mut v = vec![];
+    'outer: for i in 0..side { for j in 0..side { for k in 0..side { if v.len() == n { break 'outer; } v.push([a * i as f64, a * j as f64, a * k as f64]); } } }
+    v
+}
